@@ -325,19 +325,65 @@ def run(tier):
       samples.append(r[3])
   rep.add_part('programs-x-settings', states=n, transitions=n, traces_validated_against_impl=n,
                evaluations=n, distinct_nontrivial=len(outcomes), exhaustive=True, samples=samples)
+  run_aborts(rep, tier)
   rep.assumptions = [
       'programs: every tree with 1 leaf slot (depth<=2, all node kinds) x %d behaviours; every tree with 2 leaf slots '
       '(depth 1, groups/subtests/branches) x %d x %d behaviours; settings: defaults and every single deviation '
       '(pairs of deviations and 3-leaf programs in the thorough tier)' % (len(LEAVES), len(LEAVES), len(SECOND)),
       'timeouts are produced with timeout_s=0 on a body that never returns (virtual time is C12\'s subject)',
-      'aborts are out of scope here (C04)',
+      'aborts: C04\'s scenario (operator abort at filtered moments incl. plug tearDown, real threads under the controlled '
+      'scheduler) judged by C01\'s rule only: an abort that returned before the outcome was decided gives ABORTED, never PASS, '
+      'and execute() returns True iff the outcome is PASS',
   ]
   return rep.finish(rule='states = (program, settings) executions on the real Test.execute(); each checked by the '
                          'record-based PASS-soundness predicate and against the reference outcome ladder')
 
 
+# ---- "an abort gives ABORTED" (schedules; reuses C04's scenario and event log) ---------------------------------------
+ABORT_KINDS = ('not-aborted', 'pass-after-abort', 'no-return', 'harness-exception', 'bad-return')
+
+
+def abort_check(cfg):
+  from vf.harness import c04  # pylint: disable=g-import-not-at-top
+
+  def chk(ex):
+    rep = {'part': 'aborts', 'cfg': list(cfg), 'choices': ex.choices}
+    out = []
+    for kind, what in c04.analyse(cfg, ex):
+      if kind.startswith(ABORT_KINDS):
+        out.append(('aborts:%s:%s' % (kind, cfg[0]), '%s with %d abort(s): %s' % (cfg[0], cfg[1], what), rep))
+    v = ex.result['value']
+    if isinstance(v, dict) and v.get('res') is True and v.get('outcome') != 'PASS':
+      out.append(('aborts:true-without-pass:%s' % cfg[0], 'execute() returned True with outcome %s' % v.get('outcome'), rep))
+    return out
+  return chk
+
+
+def run_aborts(rep, tier):
+  from vf.harness import c04  # pylint: disable=g-import-not-at-top
+  from vf.sched import explore  # pylint: disable=g-import-not-at-top
+  cfgs = [(('plain3', 1, 'thread', 'wide'), 0), (('group', 1, 'thread', 'wide'), 0)]
+  if tier == 'thorough':
+    cfgs += [(('subtest', 1, 'thread', 'wide'), 0), (('repeat', 1, 'thread', 'wide'), 0), (('plain3', 1, 'thread', 'body'), 1)]
+  for cfg, bound in cfgs:
+    r = explore.explore('C01:A:%r' % (cfg,), lambda ch, cfg=cfg: c04.execute(cfg, ch), abort_check(cfg), bound, cap=60000)
+    rep.merge_violations(r['violations'])
+    rep.add_part('aborts %s' % cfg[0], states=max(1, r['states']), transitions=r['steps'], traces_validated_against_impl=r['executions'],
+                 evaluations=r['executions'], deviation_bound=bound, exhaustive=not r['capped'],
+                 samples=r['samples'] or [{'choices': []}])
+
+
 def replay(art):
   r = art['replay']
+  if r.get('part') == 'aborts':
+    from vf.harness import c04  # pylint: disable=g-import-not-at-top
+    cfg = tuple(r['cfg'])
+    ex = c04.execute(cfg, r['choices'])
+    print(ex.result['value'])
+    bad = abort_check(cfg)(ex)
+    for b in bad:
+      print('VIOLATED', b[0], b[1][:500])
+    return 1 if bad else 0
   bad, obs = evaluate(r['spec'], r['settings'])
   print(sig_of(r['spec'], r['settings']))
   print('outcome', obs.get('outcome'), 'ret', obs.get('ret'), 'phases', [(p[0], p[1], p[2]) for p in obs.get('phases', [])])
